@@ -58,7 +58,31 @@ PROPS = {
                 gen=lambda seed, tier: gen.gen_def_cases(seed, 20000 if tier == 'thorough' else 2500), flavours=['c'],
                 rule='random (mostly defective) terminal/rule lists through the callbacks, every defect class alone and in pairs, strict in {0,1}; return code vs model, symbol flags and rules vs model',
                 assumptions=COMMON_ASSUME),
-    'C13': dict(level='proof', theorem_modules=['C03'], min_theorems=4, tags=['C13'], crash_counts=True,
+    'C11': dict(level='proof', theorem_modules=['C11', 'C10'], min_theorems=8, tags=['C11'], crash_counts=True,
+                gen=lambda seed, tier: gen.gen_descr_cases(seed, 20000 if tier == 'thorough' else 2000), flavours=['c'],
+                rule='descriptions printed from a random AST with random layout (whitespace, newlines, comments, optional semicolons, TERM sections anywhere, harmless redeclarations, explicit and implicit codes, char constants, all translation forms), 30% byte-mutated, 10% arbitrary bytes; return code, error line, terminals-with-codes and rules vs the Lean lexer/parser model; parses through the description-defined object and its callback-defined twin both judged against the model',
+                assumptions=COMMON_ASSUME + ['a name declared both with and without a code is outside the property (the generator keeps redeclarations consistent)']),
+    'C16': dict(level='proof', theorem_modules=['C01', 'C10', 'C15', 'C19'], min_theorems=8, crash_counts=True, compare_flavours=True,
+                tags=['C01', 'C02', 'C05', 'C06', 'C07', 'C09', 'C10', 'C11', 'C13', 'C14', 'C15'],
+                gen=lambda seed, tier: (gen.gen_parse_cases(seed, 4000 if tier == 'thorough' else 350, 'C01') +
+                                        gen.gen_parse_cases(seed + 1, 4000 if tier == 'thorough' else 300, 'C07', maxlen=8) +
+                                        gen.gen_history_cases(seed + 2, 3000 if tier == 'thorough' else 300) +
+                                        gen.gen_descr_cases(seed + 3, 3000 if tier == 'thorough' else 300) +
+                                        gen.gen_big_symbol_cases(seed + 4, 40 if tier == 'thorough' else 6)), flavours=['c', 'cxx'],
+                rule='the case families of C01, C07, C14/C15 and C11 plus grammars with hundreds of symbols (C++ containers grow past their initial sizes) are run through libyaep and through class yaep (libyaep++); the two observation streams (return codes, messages, callbacks, flags, exported trees, free_tree traces, hook dumps) must be identical line by line, and both are judged against the same Lean model',
+                assumptions=COMMON_ASSUME + ['no theorem of its own: the claim is that both implementations correspond to the same proved model']),
+    'C12': dict(level='exploration', theorem_modules=['C01', 'C19'], min_theorems=4, tags=['C12'], crash_counts=True,
+                gen=lambda seed, tier: (gen.gen_hostile_cases(seed, 30000 if tier == 'thorough' else 2500) +
+                                        gen.gen_parse_cases(seed + 1, 6000 if tier == 'thorough' else 400, 'C07', maxlen=9) +
+                                        gen.gen_parse_cases(seed + 2, 6000 if tier == 'thorough' else 400, 'C04') +
+                                        gen.gen_history_cases(seed + 3, 4000 if tier == 'thorough' else 300) +
+                                        gen.gen_descr_cases(seed + 4, 4000 if tier == 'thorough' else 300) +
+                                        gen.gen_def_cases(seed + 5, 4000 if tier == 'thorough' else 300)), flavours=['c', 'cxx'],
+                rule='hostile stream (arbitrary byte strings and mutated texts as descriptions, 150-1000 character symbol names in every error message, 70-260 terminals with dense/sparse/huge codes, arbitrary int token sequences incl. undeclared and negative codes, extreme setter values, all debug levels) plus samples of every other case family, on the C and the C++ build under ASan+UBSan with real frees and a 20 s watchdog per case; a sanitizer report, abort, non-zero exit or timeout is a violation; message length <= 200',
+                assumptions=['partial by nature: absence of sanitizer reports on the explored inputs, not a proof of memory safety of the pointer code',
+                             'Lean carries only the decision logic behind bounds (recovery index arithmetic is validated by the C06/C07 checks, containers by C19)'],
+                technique='sanitizer-instrumented exploration driven by the same generators; Lean theorems only for the modelled index/bounds logic (partial)'),
+    'C13': dict(level='proof', theorem_modules=['C13'], min_theorems=6, tags=['C13'], crash_counts=True,
                 gen=lambda seed, tier: gen.gen_history_cases(seed, 4000 if tier == 'thorough' else 500) +
                                        gen.gen_parse_cases(seed + 7, 6000 if tier == 'thorough' else 500, 'C13'), flavours=['c'],
                 rule='every caller-side parse_alloc / parse_free / termcb event of every parse is logged with block ids: frees must hit live blocks of the same parse exactly once, everything reachable from the root must lie in live blocks (walk before and after yaep_free_grammar under ASan with real frees), yaep_free_tree must release all blocks of the parse and call termcb once per TERM node; definitions are handed over as heap copies that are scribbled and freed right after the defining call',
@@ -113,9 +137,17 @@ def run_property(pid, P, cases, tier, seed, replay=False):
     seen = set()
     feats = Counter()
     vcount = Counter()
+    obs_by_flavour = {}
+
+    def flt(l):
+        # allocation counters legitimately differ between the C and the C++ containers
+        if not l.startswith('o '): return True
+        w = l.split()
+        return not (len(w) > 2 and w[2] == 'lib') and not (len(w) > 1 and w[1] == 'end') and not l.startswith('o !')
     for flavour in P.get('flavours', ['c']):
         res = pipeline.run_cases(cases, flavour, kind=P.get('kind', 'yaep'))
         bycase = {}
+        obs_by_flavour[flavour] = res.obs
         for v in res.verdicts:
             relevant = v.prop in tags or (P.get('crash_counts') and v.prop == 'C12')
             if not relevant: continue
@@ -134,6 +166,23 @@ def run_property(pid, P, cases, tier, seed, replay=False):
         cov['evaluations'] += len(cases)
         if not cov['samples'] and cases:
             cov['samples'] = [cases[min(len(cases) - 1, 7)]]
+    if P.get('compare_flavours') and len(obs_by_flavour) == 2:
+        (fa, oa), (fb, ob) = list(obs_by_flavour.items())
+        ndiff = 0; ncmp = 0
+        for cid, la in oa.items():
+            lb = ob.get(cid)
+            if lb is None: continue
+            ncmp += 1
+            fa_l = [l for l in la if flt(l)]; fb_l = [l for l in lb if flt(l)]
+            if fa_l != fb_l:
+                ndiff += 1
+                k = next((i for i in range(min(len(fa_l), len(fb_l))) if fa_l[i] != fb_l[i]), min(len(fa_l), len(fb_l)))
+                failures.append(dict(prop=pid, kind='K', case=cid, op='0',
+                                     detail='C and C++ observations differ at line %d: %s: %r || %s: %r' % (
+                                         k, fa, fa_l[k] if k < len(fa_l) else '<end>', fb, fb_l[k] if k < len(fb_l) else '<end>'),
+                                     context=[], replay_lines=la + ['# ---- ' + fb] + lb))
+        vcount['%s K C-vs-C++ compared' % pid] = ncmp
+        vcount['%s K C-vs-C++ differ' % pid] = ndiff
     cov['distinct_nontrivial'] = len(seen)
     cov['verdicts'] = dict(vcount)
     cov['features'] = dict(feats)
